@@ -62,6 +62,9 @@ def cfgs(tier, seed):
         out.append(dict(base, sweeper='generic_implicit', qd='LU', prob='dahlquist', n=1, M=[3], NP=1, maxiter=5, quad_type='LOBATTO', initial_guess='zero'))
         out.append(dict(base, sweeper='generic_implicit', qd='LU', prob='dahlquist', n=1, M=[2], NP=1, maxiter=5, quad_type='RADAU-LEFT', initial_guess='zero'))
         out.append(dict(base, sweeper='generic_implicit', qd='LU', prob='dahlquist', n=1, M=[2], NP=3, maxiter=2, quad_type='GAUSS', jac=True))
+        out.append(dict(base, sweeper='generic_implicit', qd='LU', prob='dahlquist', n=1, M=[2], NP=2, maxiter=4, jac=True, all_to_done=True))
+        out.append(dict(base, sweeper='generic_implicit', qd='LU', prob='dahlquist', n=1, M=[2, 1], NP=2, maxiter=3, predict='pfasst_burnin', all_to_done=True))
+        out.append(dict(base, sweeper='imex_1st_order', qd='LU', prob='dahlquist', n=1, M=[2], NP=2, maxiter=4, jac=False, cu=True))
         out.append(dict(base, sweeper='imex_1st_order', qd='IE', prob='dahlquist', n=2, M=[2, 1], NP=1, maxiter=3, predict=None))
         out.append(dict(base, sweeper='generic_implicit', qd='LU', prob='dahlquist', n=1, M=[3], NP=1, maxiter=3))
         out.append(dict(base, sweeper='explicit', qd='EE', prob='dahlquist', n=1, M=[2], NP=1, maxiter=5))
@@ -85,7 +88,8 @@ def cfgs(tier, seed):
                             out.append(dict(base, sweeper=sw, qd=rng.choice(['IE', 'LU', 'MIN-SR-S', 'MIN', 'Qpar'] if sw != 'explicit' else ['EE']), prob=prob, n=n, M=M, NP=NP,
                                             maxiter=(3 if NP * len(M) * n > 3 else 4), predict=pred, jac=rng.choice([True, False]),
                                             nsweeps=rng.choice([1, 1, 2]) if len(M) > 1 else 1, residual_type=rng.choice(['full_abs', 'full_abs', 'full_rel']), quad_type=(rng.choice(['RADAU-RIGHT', 'RADAU-RIGHT', 'LOBATTO', 'GAUSS']) if len(M) == 1 else rng.choice(['RADAU-RIGHT', 'LOBATTO'])),
-                                            finter=(rng.random() < 0.3 and len(M) > 1), initial_guess=rng.choice(['spread', 'spread', 'zero', 'copy'])))
+                                            finter=(rng.random() < 0.3 and len(M) > 1), initial_guess=rng.choice(['spread', 'spread', 'zero', 'copy']),
+                                            all_to_done=(rng.random() < 0.25), cu=(rng.random() < 0.2 and len(M) == 1)))
         rng.shuffle(out)
         # size filter: keep the cheap majority, at least 200 configurations
         def ok(c):
@@ -111,7 +115,8 @@ def run_task(rep, task):
 
 def cname(cfg):
     return (f"{cfg['sweeper']}/{cfg['qd']}/{cfg.get('quad_type', 'RADAU-RIGHT')}/{cfg['prob']}{cfg['n']}/M{'-'.join(map(str, cfg['M']))}/NP{cfg['NP']}x{cfg.get('blocks', 1)}/K{cfg['maxiter']}/"
-            f"{cfg.get('predict')}/jac{int(cfg.get('jac', True))}/{cfg.get('residual_type', 'full_abs')}/ns{cfg.get('nsweeps', 1)}/f{int(bool(cfg.get('finter')))}/{cfg.get('initial_guess', 'spread')}")
+            f"{cfg.get('predict')}/jac{int(cfg.get('jac', True))}/{cfg.get('residual_type', 'full_abs')}/ns{cfg.get('nsweeps', 1)}/f{int(bool(cfg.get('finter')))}/{cfg.get('initial_guess', 'spread')}"
+            + ('/atd' if cfg.get('all_to_done') else '') + ('/cu' if cfg.get('cu') else ''))
 
 
 def coll_constant(Q, A, dt, weights=None):
